@@ -57,6 +57,9 @@ pub struct SynFile {
     pub tree_text_len: Option<usize>,
     pub has_error_node: bool,
     pub trait_view: TraitView,
+    /// the inherent accessors of an included source (`ast()`, `included_files()`) agree with
+    /// the `SourceTrait` view of the same data
+    pub accessors_agree: bool,
     pub children: Vec<SynFile>,
 }
 
@@ -126,6 +129,10 @@ pub fn list_tree(l: &SemanticErrorList) -> ListTree {
 }
 
 fn syn_tree<T: SourceTrait>(s: &T, include_error: Option<String>) -> SynFile {
+    syn_tree_inner(s, include_error, true)
+}
+
+fn syn_tree_inner<T: SourceTrait>(s: &T, include_error: Option<String>, accessors_agree: bool) -> SynFile {
     let trait_view: TraitView = s
         .syntax_ast()
         .map(|a| {
@@ -171,11 +178,14 @@ fn syn_tree<T: SourceTrait>(s: &T, include_error: Option<String>) -> SynFile {
         tree_text_len,
         has_error_node,
         trait_view,
+        accessors_agree,
         children: s
             .included()
             .iter()
             .map(|c: &SourceFile| {
-                syn_tree(c, c.include_error().map(|e| format!("{:?}", e.error)))
+                let agree = c.ast().is_some() == c.syntax_ast().is_some()
+                    && c.included_files().len() == c.included().len();
+                syn_tree_inner(c, c.include_error().map(|e| format!("{:?}", e.error)), agree)
             })
             .collect(),
     }
